@@ -50,12 +50,11 @@ REG = {
         "technique": "Lean 4 theorems over the executable decoder model + differential correspondence with pydsdl.deserialize + metamorphic oracle on the real library",
         "level_text": "For the modelled decoder it is proved in Lean 4, for all types and all bit strings: totality with only the four decode error classes; "
                       "every returned value is valid and a fixed point of encode/decode; implicit truncation; stability of every decoding step under zero "
-                      "extension of the window (including bounded sub-readers); rejection of over-capacity lengths, out-of-range tags and oversized headers. "
+                      "extension of the window (including bounded sub-readers) and its converse up to DelimiterHeaderError; rejection of over-capacity lengths, out-of-range tags and oversized headers. "
                       "The model is tied to _serdes.py by running both on generated byte strings on every run; exception classes, fixed point, truncation, "
                       "zero extension and rejection are also checked directly on the real library.",
         "level_note": _TRUST,
         "partial": [
-            "converse of zero extension (b+zeros decodes => b decodes alike unless a DelimiterHeaderError occurs in b) is checked by the oracle on every run, not proved",
             "exception behaviour of CPython itself (RecursionError on very deep types, MemoryError) is outside the model",
             "'no dependence on data outside b' is purity of the Lean function; on the Python side it is observed only through determinism of the differential runs",
             "both read paths (aligned fast path, bit-wise slow path) are one function in the model: agreement is by correspondence only",
@@ -71,7 +70,9 @@ C14_WIRE = {
     "rule": "pairs (D, D') of delimited structures with a common extent where one field list (0-4 random fields incl. nested composites, arrays, "
             "padding) is a proper prefix of the other (1-3 more fields), nested 1-3 levels deep as structure field (fields before and after), "
             "fixed / variable array element, union variant, or inside a further delimited structure; random values of the writer's type; both "
-            "directions (fields appended / removed); distinct = distinct (writer type, reader type, value)",
+            "directions (fields appended / removed); 12% of the pairs are delimited UNIONS gaining / losing trailing variants (common variants must "
+            "read alike, a variant unknown to the reader must be rejected, never decoded as something else); "
+            "distinct = distinct (writer type, reader type, value)",
     "partial": [
         "wire half: C14.wire is proved for one nesting path (Wire.Ctx: field / variant / fixed and variable array element / sealed or delimited "
         "composite, any depth; for arrays all elements are of the revised type); two different revised types inside one container follow by "
